@@ -110,8 +110,8 @@ func (e *Enc) special(fr *Frame, val ssa.Value, callee *ssa.Function, full strin
 		a, b := args[0].v.T, args[1].v.T
 		key := byteKey()
 		hk := e.hget(h, key)
-		set(fmt.Sprintf("(and (= (slen %s) (slen %s)) (forall ((i!e Int)) (=> (and (<= 0 i!e) (< i!e (slen %s))) (= (select (select %s (sref %s)) (+ (soff %s) i!e)) (select (select %s (sref %s)) (+ (soff %s) i!e))))))",
-			a, b, a, hk, a, a, hk, b, b))
+		e.bytesEqDecl()
+		set(fmt.Sprintf("(bytes_eq %s %s %s)", hk, a, b))
 		return h, true
 	}
 	return h, false
@@ -162,4 +162,22 @@ func (e *Enc) sortSearch(fr *Frame, val ssa.Value, args []Operand, g string, h *
 	p2 := evalPred(fmt.Sprintf("(- %s 1)", r.T), g2, true)
 	e.assume(g2, not(p2))
 	return h
+}
+
+// bytesEqDecl declares bytes_eq(heap row map, a, b): slices a and b hold the same
+// bytes.  It is a named predicate (with its definition as a triggered axiom) so
+// that specifications mentioning byte equality stay small.
+func (e *Enc) bytesEqDecl() {
+	e.d.add("(declare-fun bytes_eq ((Array Int (Array Int Int)) Slice Slice) Bool)")
+	e.d.add("(assert (forall ((h!b (Array Int (Array Int Int))) (a!b Slice) (b!b Slice)) (! (= (bytes_eq h!b a!b b!b) (and (= (slen a!b) (slen b!b)) (forall ((i!e Int)) (=> (and (<= 0 i!e) (< i!e (slen a!b))) (= (select (select h!b (sref a!b)) (+ (soff a!b) i!e)) (select (select h!b (sref b!b)) (+ (soff b!b) i!e))))))) :pattern ((bytes_eq h!b a!b b!b)))))")
+}
+
+// declStrlt declares the string order used for < on strings: a strict total order
+// on string identities (strings are interned: equal contents = equal identity).
+func (e *Enc) declStrlt() {
+	e.d.add("(declare-fun strlt (Int Int) Bool)")
+	e.d.add("(assert (forall ((x!s Int)) (! (not (strlt x!s x!s)) :pattern ((strlt x!s x!s)))))")
+	e.d.add("(assert (forall ((x!s Int) (y!s Int)) (! (=> (strlt x!s y!s) (and (distinct x!s y!s) (not (strlt y!s x!s)))) :pattern ((strlt x!s y!s)))))")
+	e.d.add("(assert (forall ((x!s Int) (y!s Int)) (! (or (strlt x!s y!s) (= x!s y!s) (strlt y!s x!s)) :pattern ((strlt x!s y!s)))))")
+	e.d.add("(assert (forall ((x!s Int) (y!s Int) (z!s Int)) (! (=> (and (strlt x!s y!s) (strlt y!s z!s)) (strlt x!s z!s)) :pattern ((strlt x!s y!s) (strlt y!s z!s)))))")
 }
